@@ -96,7 +96,7 @@ theorem sim_close {cfg : Cfg} {d d' : RState} {m : Mon} {o : Obs} (hs : Sim cfg 
           · intro _; rw [g3]; simp [hbz]
           · left; rw [g3]; simp [hbz]
         · rw [hreq]; rfl
-        · exact chkLog_nil _ _ _
+        · exact chkLogOp_nil _ _ _ _
         · simp [chkNoId, hreq]
         · rfl
         · intro h hh; cases hh
@@ -147,7 +147,7 @@ theorem sim_close {cfg : Cfg} {d d' : RState} {m : Mon} {o : Obs} (hs : Sim cfg 
           rw [g1, dyingF_eq]
           exact relpre_settle _ (rel_closing hrel.toERelPre hr) (eokq_close hk).notDue
         · rw [hreq]; rfl
-        · exact chkLog_nil _ _ _
+        · exact chkLogOp_nil _ _ _ _
         · simp [chkNoId, hreq]
         · rfl
         · intro h hh; cases hh
